@@ -518,6 +518,14 @@ def run(chk):
                       st(".", YDOC13, out=of, reuse_enc=True, reuse_tree=False)])
     for e in pool.load_updates:
         fixed.append([st(e, YDOC6, reuse_tree=False), st(e, YDOC6, reuse_tree=False), st(e, YDOC7, reuse_tree=True), st(e, YDOC7, reuse_tree=True, all=True)])
+    # one Decoder instance over streams that hold only comments, before and after streams that hold documents
+    for al in (False, True):
+        for out in ("yaml", "json"):
+            fixed.append([st(".", YDOC1, reuse_dec=True, reuse_tree=False, all=al, out=out), st(".", YDOC4, reuse_dec=True, reuse_tree=False, all=al, out=out),
+                          st(".", YDOC7, reuse_dec=True, reuse_tree=False, all=al, out=out), st(".", "---\n# c\n", reuse_dec=True, reuse_tree=False, all=al, out=out),
+                          st(".", YDOC4, reuse_dec=True, reuse_tree=False, all=al, out=out), st(".a", YDOC1, reuse_dec=True, reuse_tree=False, all=al, out=out)])
+            fixed.append([st(".", YDOC4, reuse_dec=True, reuse_tree=False, all=al, out=out), st(".", YDOC4, reuse_dec=True, reuse_tree=False, all=al, out=out),
+                          st(".", YDOC2, reuse_dec=True, reuse_tree=False, all=al, out=out), st(".", YDOC4, reuse_dec=True, reuse_tree=False, all=al, out=out)])
     histories = list(fixed)
 
     def targeted():
